@@ -105,7 +105,7 @@ def finish(c, d, res, keys, rule):
 
 def run(c):
     d, res = pipeline(c)
-    return finish(c, d, res, ["foreignCoin", "foreignOfferOnly", "farmed", "activeFarm", "farmStaggered", "activeZeroedDiff", "farmTopUp", "farmTopUpDiff", "activeUnfarm", "supply", "pending", "filled", "zeroSupply", "placed", "mmImproved"],
+    return finish(c, d, res, ["foreignCoin", "foreignOfferOnly", "farmed", "activeFarm", "pending", "rqOrder", "rqCrossing", "rqMMImproved", "rqReqExec", "rqWholeSupply", "rqFarmStaggered", "rqFarmTopUp", "rqFarmTopUpDiff", "rqActiveUnfarm", "rqActiveZeroedDiff"],
                   "bounded TLC model (3 configs) checked exhaustively; its alphabet explored breadth-first on the real module (dedup by projected state, "
                   "node budget); seeded random multi-actor runs over 2 apps / 2 pairs / pools (basic+ranged) / farming / all order types with a drain phase; "
                   "each recorded node is one TLC state of Trace_Liquidity (C04_* on every state, C04_SupplyOnlyByPoolOps on every step)")
